@@ -110,6 +110,15 @@ Theorem C20_gate_dispatch_exact : forall g r,
 Proof. exact c20_gate_dispatch_exact. Qed.
 Print Assumptions C20_gate_dispatch_exact.
 
+(* NOT part of the property text ("declared body exceeds max_content_length"), recorded for the stronger reading
+   "no request body larger than max_content_length is ever read": refuted by the code as it is -- a NEGATIVE declared
+   length reaches the handler, which then reads until EOF (witness replayed on the real code by checks/C20.py,
+   see notes/C20.md and notes/fixes/C20-negative-content-length.patch). *)
+Theorem C20_size_bound_strong_refuted : exists g r z, internal g = true /\ 0 < max_len g /\ r_cl r = ClInt z /\ z < 0 /\
+  gate g r = GDispatch.
+Proof. exact ex_negative_length_dispatched. Qed.
+Print Assumptions C20_size_bound_strong_refuted.
+
 (* in the server: status 413 (or an earlier gate's status), the handler is not invoked, the thread finishes *)
 Theorem C20_413 : forall cfg s w r z, reachable cfg s -> internal (gc cfg) = true -> 0 < max_len (gc cfg) ->
   In w (workers s) -> w_st w = WReading -> w_cl w = CSent (RHttp r) -> r_cl r = ClInt z -> max_len (gc cfg) < z ->
